@@ -126,7 +126,8 @@ var points = []point{
 	{"node/node.go", "KVNode.CleanData", "", 0, "entry", "trace:clean"},
 	// protocol waittable (C04): the window of wait.Trigger between its two parts (registration deleted and lock dropped,
 	// result not stored / channel not signalled yet); hook in harness/overlay/pkg/wait
-	{"pkg/wait/wait.go", "multList.Trigger", "w.l.Unlock", 1, "after", "trace:triggergap"},
+	// (disabled since fix 184e1b3 made Trigger atomic: there is no window behind w.l.Unlock() any more; the waittable protocol is being adapted)
+	// {"pkg/wait/wait.go", "multList.Trigger", "w.l.Unlock", 1, "after", "trace:triggergap"},
 }
 
 func exprString(fset *token.FileSet, e ast.Node) string {
